@@ -9,6 +9,16 @@
 //!
 //! Don't-cares (nothing else is loosened):
 //!  * overlapping error conditions: any rcode whose condition holds (table in model.rs);
+//!  * pseudo-records (OPT / TSIG / SIG(0)) out of place: FORMERR is REQUIRED only where an RFC says MUST
+//!    to the receiver – more than one OPT RR anywhere in the message (RFC 6891 §6.1.1), a well-formed TSIG
+//!    RR that is not the last additional record or a second one (RFC 8945 §5.2; the harness builds hickory
+//!    with dnssec-ring, so TSIG is implemented).  Don't-care, counted as `pseudo/<tag>` and
+//!    `pseudo_outcome/<tag>/<rcode>`: a lone OPT in the answer/authority section (RFC 6891 confines OPT to
+//!    the additional section but prescribes no receiver action for a single stray one; FORMERR, BADVERS if
+//!    it announces a version > 0, and ignoring it are all admissible), an OPT with a non-root owner,
+//!    SIG(0)-shaped records anywhere (no RCODE mandated by RFC 2931, SIG(0) not implemented), type-250
+//!    records that are not well-formed TSIG RRs, and a correctly placed TSIG (no key is configured:
+//!    NOTAUTH per RFC 8945 §5.2.1 and ignoring it are both admissible);
 //!  * QNAME with a compression pointer: FORMERR admissible (accepted pointer forms are not in the
 //!    statement); pointer into the 12 header octets: echoed question not compared (the raw octets
 //!    are echoed under a header with different flag bytes);
@@ -27,7 +37,8 @@
 //!    not remove a partially written record) are counted (`response_trailing_octets_c03`), not judged.
 //!
 //! Finding signature = (clause, gate branch): clause ∈ count | id | qr | question | rcode | zone |
-//! wire | panic | hang | survival; branch = the model's primary branch (see model.rs).
+//! wire | panic | hang | survival; branch = the model's primary branch (see model.rs); the pseudo-record
+//! placement rules have a branch of their own (`formerr-pseudo`), apart from framing (`formerr-body`).
 
 mod cfg;
 mod model;
@@ -63,6 +74,7 @@ pub const BRANCHES: &[&str] = &[
     "formerr-question",
     "refused-acl",
     "formerr-body",
+    "formerr-pseudo",
     "badvers",
     "notimp-opcode",
     "refused-nozone",
@@ -205,6 +217,12 @@ pub fn count_expectation(rep: &mut Reporter, cfg: &Config, exp: &Expect) {
     if exp.question.as_ref().is_some_and(|q| q.header_pointer) {
         rep.count("question_header_pointer");
     }
+    for t in &exp.tags {
+        rep.count(&format!("pseudo/{t}"));
+    }
+    if exp.pseudo_shadows_answer {
+        rep.count("pseudo_required_shadows_zone_answer");
+    }
 }
 
 /// Run one case through gate, model and judge; report violations. Returns the model's branch.
@@ -225,6 +243,7 @@ fn run_case(rt: &tokio::runtime::Runtime, rep: &mut Reporter, server: &Server<Ca
             "ordinary": format!("{:?}", exp.normal),
             "question": format!("{:?}", exp.qecho),
             "conditions": exp.conds.iter().filter(|c| c.1 != Tri::No).map(|c| format!("{}={:?}", c.0, c.1)).collect::<Vec<_>>(),
+            "pseudo_records": exp.tags,
         })
     };
     match drive(rt, server, c.bytes, c.src, c.proto) {
@@ -240,6 +259,13 @@ fn run_case(rt: &tokio::runtime::Runtime, rep: &mut Reporter, server: &Server<Ca
             }
             if v.outcome.ends_with("+data") {
                 rep.count("responses_with_zone_marker");
+            }
+            // what the server did with each pseudo-record situation (verdicts and don't-cares alike)
+            for t in &exp.tags {
+                rep.count(&format!("pseudo_outcome/{t}/{}", v.outcome));
+            }
+            if exp.branch == "formerr-pseudo" {
+                rep.count(&format!("pseudo_required_decides/{}", proto_name(c.proto)));
             }
             for (clause, e, o) in v.fails {
                 rep.violation(clause, exp.branch, c.to_json(), json!({"clause": e, "model": exp_json(&exp)}), json!({"clause": o, "responses": resps.iter().map(|r| hex(r)).collect::<Vec<_>>()}));
@@ -321,6 +347,13 @@ fn main() {
     rep.must("question_header_pointer", 300);
     rep.must("responses_with_zone_marker", 5000);
     rep.must("cond_yes/refused-acl", 1000);
+    // pseudo-records out of place (thresholds: a quick run sees 10-100 times as many)
+    for t in ["opt2/ns+ar", "opt2/an+ar", "opt2/ar+ar", "opt1/ns", "opt1/an", "opt-owner-nonroot", "tsig/an", "tsig/ns", "tsig/ar-not-last", "tsig/two", "tsig/ar-last", "sig0/an", "sig0/ns", "sig0/ar-not-last"] {
+        rep.must(&format!("pseudo/{t}"), 500);
+    }
+    rep.must("pseudo_required_decides/udp", 1000);
+    rep.must("pseudo_required_decides/tcp", 1000);
+    rep.must("pseudo_required_shadows_zone_answer", 500);
 
     let mut rng = ctx.rng("main");
     let mut ids = reqgen::Ids { next_id: rng.u16(), nonce: 0, shard: ctx.shard };
